@@ -60,7 +60,9 @@ def rule_key(ctx):
             msg = Obj(news[mk], {"device": Const("DEVA"), "name": Const(target), "children": Lst(kids), "timestamp": Const(None), "__closed__": Const(True)}, label="newVector")
             return it.run_function(Fn(f, drivers["DEVA"]), [msg], {})
 
-        paths = explore(p, run, {"inline": lambda fi, node: fi is fnm or (fi.kind == "getter" and fi.module.name.startswith("indi.device.")), "call_may_raise": None})
+        # the driver package decides the dispatch with whatever helpers / polymorphic hooks it likes; what is observed is
+        # which element receives which child (set_value_from_message), events and publications stay opaque
+        paths = explore(p, run, {"inline": lambda fi, node: fi is fnm or (fi.module.name.startswith("indi.device.") and fi.name not in ("set_value_from_message", "raise_event", "send_message", "attach_event_handlers")), "call_may_raise": None})
         ctx.paths_enumerated += len(paths)
         row = f"new{mk}Vector device=DEVA name={target} children={children}"
         for pa in paths:
